@@ -18,7 +18,7 @@ core.ensure_repo_on_path()
 def _cfg(gear):
     return {"shorts": [g.short for g in gear], "storeOK": [True] * len(gear), "permitted": [], "readdress": False,
             "dryrun": False, "rands": [0] * len(gear), "groups": [sorted(g.groups) for g in gear],
-            "dts": [list(g.dts) for g in gear], "dtr0": 0}
+            "dts": [list(g.dts) for g in gear], "dtr0": 0, "inits": ["DISABLED"] * len(gear)}
 
 
 def _answerer(bus):
@@ -125,8 +125,9 @@ def cases(tier, seed):
             c["s1"] = rng.choice([5, 255, 255])
         cs.append(c)
     # adversarial streams
-    a1 = [["none", 0], ["err", 255], ["val", 0], ["val", 1], ["val", 6], ["val", 254], ["val", 255]]
-    an = [["none", 0], ["err", 255], ["val", 0], ["val", 1], ["val", 6], ["val", 253], ["val", 254]]
+    # a framing error carries whatever data bits the gateway made out: also the values that mean something (254, 255, a type)
+    a1 = [["none", 0], ["err", 255], ["err", 254], ["val", 0], ["val", 1], ["val", 6], ["val", 254], ["val", 255]]
+    an = [["none", 0], ["err", 255], ["err", 254], ["err", 6], ["val", 0], ["val", 1], ["val", 6], ["val", 253], ["val", 254]]
     maxlen = 4 if tier == "quick" else 6
     for ln in range(1, maxlen + 1):
         for first in a1:
